@@ -4869,10 +4869,17 @@ def _set_tensor_dict(  # noqa: F811
     inplace: bool,
 ) -> None:
     """Simplified version of torch.nn.utils._named_member_accessor."""
+    # An entry that stays in the dict it was found in is replaced in place (as torch's own
+    # swap_tensor does): popping and re-inserting moved it to the end, so that swapping a subset
+    # of the parameters permuted module._parameters (the order of parameters(), state_dict(),
+    # optimizer groups). None entries are left where they are too.
     was_buffer = False
-    out = _parameters.pop(name, None)  # type: ignore[assignment]
-    if out is None:
-        out = _buffers.pop(name, None)
+    was_param = False
+    out = _parameters.get(name)  # type: ignore[assignment]
+    if out is not None:
+        was_param = True
+    else:
+        out = _buffers.get(name)
         was_buffer = out is not None
     if out is None:
         # dynamo doesn't like pop...
@@ -4902,6 +4909,10 @@ def _set_tensor_dict(  # noqa: F811
             )
 
     else:
+        if was_param:
+            del _parameters[name]
+        elif was_buffer:
+            del _buffers[name]
         __dict__[name] = tensor
     return out
 
